@@ -6,6 +6,7 @@
   (`Seq.rd`, `Seq.rd16`: header fields and pointer slots) and `Spec/RiffTree` (`walkTop`).
 -/
 import Ctrmml.Proofs.MdsFile
+import Ctrmml.Proofs.MdsTop
 import Ctrmml.Properties.C13
 import Ctrmml.Spec.MdsResolve
 namespace Ctrmml.MdsFile
@@ -302,6 +303,149 @@ theorem C09_ids_injective_partial (c : Conv) (hu : UsedOk c.usedData)
   split <;> split <;> omega
 
 example : UsedOk ({ usedData := [(1, 0), (65538, 1), (3, 2)] } : Conv).usedData := by unfold UsedOk; decide
+
+/-- `ids_injective`: no two `dblk` entries of an export share a slot id.  (`PlatformClean`: no
+platform `cmd` injects a raw index-bearing opcode.) -/
+theorem C09_ids_injective {song : Song} {d : DataInfo} (hpc : PlatformClean d) {vol : Option String} {b : Built}
+    (h : construct song d vol = .ok b) :
+    ((usedSorted b.conv).map fun p => entryId b.conv.subList.length b.conv.macroList.length p.1 p.2 % 2147483648).Nodup := by
+  obtain ⟨hinv, _, hasm⟩ := construct_inv hpc h
+  obtain ⟨_, _, _, _, _, _, hsz, _⟩ := assemble_ok hasm
+  exact C09_ids_injective_partial b.conv hinv.maps.used (by unfold hdrSize at hsz; omega)
+
+/-- the track-list facts: the track table lists exactly the song's channel tracks (ids below 16),
+in ascending order when the song's track map is (as a `std::map` is), and there are at most 16 -/
+theorem C09_tracks_exact {song : Song} {d : DataInfo} {vol : Option String} {b : Built}
+    (h : construct song d vol = .ok b) :
+    b.trackList.map (·.1) = channelIds song ∧ (∀ id ∈ channelIds song, id < 16 ∧ id ∈ song.tracks.map (·.1)) ∧
+    ((song.tracks.map (·.1)).Pairwise (· < ·) → (channelIds song).Pairwise (· < ·) ∧ b.trackList.length ≤ 16) := by
+  have hids := construct_ids h
+  refine ⟨hids, ?_, ?_⟩
+  · intro id hid
+    unfold channelIds at hid
+    have := List.mem_filter.mp hid
+    exact ⟨by simpa using this.2, this.1⟩
+  · intro hs
+    have hp : (channelIds song).Pairwise (· < ·) := List.Pairwise.filter _ hs
+    refine ⟨hp, ?_⟩
+    have hl : b.trackList.length = (channelIds song).length := by rw [← hids]; simp
+    rw [hl]
+    rcases sorted_length_le (channelIds song) 0 16 hp (by
+      intro x hx
+      unfold channelIds at hx
+      have := (List.mem_filter.mp hx).2
+      exact ⟨Nat.zero_le _, by simpa using this⟩) with h' | h'
+    · omega
+    · rw [h']; simp
+
+/-- `index_resolves`: in every event list the converter emits (channel tracks, subroutines, macro
+tracks) every index-bearing event refers to a key that is present in its map, and the index leads,
+through the pointer table of the exported `seq `, to the bytes of exactly the list registered under
+that key — which is what the writer makes of the track the key names (`SubNamed` / `MacNamed`).
+Data indices refer to a key of `used_data_map` (the `dblk` side is `C09_data_resolves`). -/
+theorem C09_index_resolves {song : Song} {d : DataInfo} (hpc : PlatformClean d) {vol : Option String} {b : Built}
+    (h : construct song d vol = .ok b) :
+    ∀ l ∈ b.trackList.map (·.2) ++ b.conv.subList ++ b.conv.macroList, ∀ ev ∈ l,
+      (ev.type = mds_PAT → ∃ key evs stream off rest,
+        (key, ev.arg) ∈ b.conv.subMap ∧ b.conv.subList[ev.arg]? = some evs ∧ SubNamed song d key evs ∧
+        convertTrackChk b.conv.subList.length b.conv.macroList.length evs = .ok stream ∧
+        Seq.rd16 b.seq (4 + 4 * b.trackList.length + 2 * ev.arg) = some off ∧
+        b.seq.drop (4 + 4 * b.trackList.length + off) = stream ++ rest) ∧
+      (ev.type = mds_INS ∨ ev.type = mds_PCM → ∃ mapped, (mapped, ev.arg) ∈ b.conv.usedData ∧
+        Seq.rd16 b.seq (4 + 4 * b.trackList.length + 2 * (b.conv.subList.length + b.conv.macroList.length + ev.arg)) = some 0) ∧
+      (ev.type = mds_PEG → ev.arg ≠ 0 → ∃ mapped, (mapped, ev.arg - 1) ∈ b.conv.usedData ∧
+        Seq.rd16 b.seq (4 + 4 * b.trackList.length + 2 * (b.conv.subList.length + b.conv.macroList.length + (ev.arg - 1))) = some 0) ∧
+      (ev.type = mds_MTAB → ev.arg ≠ 0 → ∃ key evs stream off rest,
+        (key, ev.arg - 1) ∈ b.conv.macroMap ∧ b.conv.macroList[ev.arg - 1]? = some evs ∧ MacNamed song d key evs ∧
+        convertMacroTrack evs = .ok stream ∧
+        Seq.rd16 b.seq (4 + 4 * b.trackList.length + 2 * (b.conv.subList.length + (ev.arg - 1))) = some off ∧
+        b.seq.drop (4 + 4 * b.trackList.length + off) = stream ++ rest) := by
+  obtain ⟨hinv, _, hasm⟩ := construct_inv hpc h
+  obtain ⟨_, hfirst, hsub, hmac, hdat⟩ := C09_slot_count hasm
+  intro l hl ev hev
+  have hall : AllEv b.conv (b.trackList.map (·.2)) ev := by
+    rcases List.mem_append.mp hl with hl | hl
+    · rcases List.mem_append.mp hl with hl | hl
+      · exact Or.inr (Or.inr ⟨l, hl, hev⟩)
+      · exact Or.inl ⟨l, hl, hev⟩
+    · exact Or.inr (Or.inl ⟨l, hl, hev⟩)
+  have hsc := hinv.scopedEv ev hall
+  refine ⟨?_, ?_, ?_, ?_⟩
+  · intro ht
+    have hk := hsc.1 ht
+    obtain ⟨key, hkey⟩ := exists_key_of_lt hinv.maps.sub (by rw [hinv.maps.subLen]; exact hk)
+    obtain ⟨evs, he, hnm⟩ := hinv.namedS _ hkey (by simp [Pend.hs])
+    obtain ⟨off, stream, rest, h1, h2, h3⟩ := hsub ev.arg hk
+    have : evs = b.conv.subList[ev.arg] := by
+      rw [List.getElem?_eq_getElem hk] at he; exact (Option.some.inj he).symm
+    subst this
+    exact ⟨key, _, stream, off, rest, hkey, he, hnm, h2, h1, h3⟩
+  · intro ht
+    have hk := hsc.2.1 ht
+    obtain ⟨mapped, hkey⟩ := exists_key_of_lt hinv.maps.used hk
+    exact ⟨mapped, hkey, hdat _ (by omega) (by omega)⟩
+  · intro ht hne
+    have hk := hsc.2.2.1 ht
+    obtain ⟨mapped, hkey⟩ := exists_key_of_lt hinv.maps.used (k := ev.arg - 1) (by omega)
+    exact ⟨mapped, hkey, hdat _ (by omega) (by omega)⟩
+  · intro ht hne
+    have hk := hsc.2.2.2 ht
+    have hk' : ev.arg - 1 < b.conv.macroList.length := by omega
+    obtain ⟨key, hkey⟩ := exists_key_of_lt hinv.maps.mac (by rw [hinv.maps.macLen]; exact hk')
+    obtain ⟨evs, he, hnm⟩ := hinv.namedM _ hkey (by simp [Pend.hm])
+    obtain ⟨off, stream, rest, h1, h2, h3⟩ := hmac (ev.arg - 1) hk'
+    have : evs = b.conv.macroList[ev.arg - 1] := by
+      rw [List.getElem?_eq_getElem hk'] at he; exact (Option.some.inj he).symm
+    subst this
+    exact ⟨key, _, stream, off, rest, hkey, he, hnm, h2, h1, h3⟩
+
+/-- the `dblk` side of `index_resolves`: every key of `used_data_map` has its entry in the list —
+chunk `glob`/`pcmh`, payload = 32-bit id (slot index, bit 31 for an extended envelope) followed by
+the data-bank item the key names; by `C09_ids_injective` it is the only entry with that id -/
+theorem C09_data_resolves {b : Built} {bank : List (List Nat)} {group pcm f : Bytes}
+    (h : getMds b bank group pcm = .ok f) :
+    ∃ ts : List Riff.Tree, Riff.serialize (mdsTree (toU8 b.seq) group pcm ts) = .ok f ∧
+      ∀ p ∈ b.conv.usedData, ∃ dat, bank[p.1 % (mdsFile_bankMask + 1)]? = some dat ∧
+        Riff.Tree.chunk (if p.1 < mdsFile_pcmTag then mdsFile_glob else mdsFile_pcmh)
+          (le32 (entryId b.conv.subList.length b.conv.macroList.length p.1 p.2) ++ toU8 dat) ∈ ts := by
+  obtain ⟨ts, hts, _, _, hser⟩ := getMds_serialize h
+  refine ⟨ts, hser, ?_⟩
+  intro p hp
+  have hp' : p ∈ usedSorted b.conv := (List.mergeSort_perm _ _).mem_iff.mpr hp
+  exact entryTrees_mem _ _ _ _ _ hts p hp'
+
+/-- `nothing_unused`: every subroutine, macro track and data item of an export is the target of an
+index-bearing event in an emitted event list (`AllEv`: channel tracks, subroutines, macro tracks):
+a `PAT k` (drum routine: the note / DMFINISH event carrying `k`), an `MTAB k+1`, an `INS`/`PCM i`
+or a `PEG i+1`. -/
+theorem C09_nothing_unused {song : Song} {d : DataInfo} (hpc : PlatformClean d) {vol : Option String} {b : Built}
+    (h : construct song d vol = .ok b) :
+    (∀ k, k < b.conv.subList.length → ∃ key ev, (key, k) ∈ b.conv.subMap ∧ AllEv b.conv (b.trackList.map (·.2)) ev ∧
+      ((key % 4 < 2 ∧ ev.type = mds_PAT ∧ ev.arg = k) ∨ (2 ≤ key % 4 ∧ DrumRef ev k))) ∧
+    (∀ k, k < b.conv.macroList.length → ∃ ev, AllEv b.conv (b.trackList.map (·.2)) ev ∧ ev.type = mds_MTAB ∧ ev.arg = k + 1) ∧
+    (∀ i, i < b.conv.usedData.length → ∃ ev, AllEv b.conv (b.trackList.map (·.2)) ev ∧
+      (((ev.type = mds_INS ∨ ev.type = mds_PCM) ∧ ev.arg = i) ∨ (ev.type = mds_PEG ∧ ev.arg = i + 1))) := by
+  obtain ⟨hinv, _, hasm⟩ := construct_inv hpc h
+  obtain ⟨_, _, _, _, _, _, hsz, _⟩ := assemble_ok hasm
+  unfold hdrSize at hsz
+  refine ⟨?_, ?_, ?_⟩
+  · intro k hk
+    obtain ⟨key, hm, ev, he, hr⟩ := hinv.covSub k hk (by simp [Pend.xs])
+    refine ⟨key, ev, hm, he, ?_⟩
+    rcases hr with ⟨h1, h2, h3⟩ | hr
+    · left; refine ⟨h1, h2, ?_⟩
+      rw [h3, u16_nat]; omega
+    · exact Or.inr hr
+  · intro k hk
+    obtain ⟨ev, he, ht, ha⟩ := hinv.covMac k hk (by simp [Pend.xm])
+    refine ⟨ev, he, ht, ?_⟩
+    rw [ha, u16_succ]; omega
+  · intro i hi
+    obtain ⟨ev, he, hr⟩ := hinv.covData i hi
+    refine ⟨ev, he, ?_⟩
+    rcases hr with ⟨h1, h2⟩ | ⟨h1, h2⟩
+    · left; refine ⟨h1, ?_⟩; rw [h2, u16_nat]; omega
+    · right; refine ⟨h1, ?_⟩; rw [h2, u16_succ]; omega
 
 /-! ### non-vacuity: a conversion state with one subroutine, one data item and one channel track
 assembles, and the container is produced -/
